@@ -563,25 +563,47 @@ class Real:
         outer = int(res.expansion_iterations) - mn + 1
         j_used = pre + outer - 1
         rec["known"] = False
+        hor = None if H < 0 else H
+        # (a) the expansion sequence by the independent exact farthest-successor rule; None when floating
+        #     point could split a tie of distances (some belief involved is not dyadic) or the sets get large
+        spec_seq = self.spec_expansions(j_used + 1) if 0 <= j_used <= 12 else None
+        # (b) the sequence of the real code, re-recorded through the public function
+        exact_seq, why = None, None
         try:
             seq = [np.array([self.p.initial_state_vec])]
-            for _ in range(j_used + 1):
+            for _ in range(max(j_used, 0) + 1):
                 seq.append(self.call("expand_beliefs", expand_beliefs, self.p, seq[-1]))
+            used, final = seq[j_used], seq[j_used + 1]
+            if j_used < 0 or len(used) != rec["n_alpha"] or final.shape != np.asarray(res.belief_set).shape \
+                    or not np.array_equal(final, np.asarray(res.belief_set)):
+                why = "the re-recorded expansion sequence does not reproduce the returned belief set"
+            else:
+                exact_seq = self.exactify(seq)
+                if exact_seq is None:
+                    why = "a belief of the set is not an exact successor of a member"
         except Exception as e:                               # noqa: BLE001
-            rec["recon"] = f"expand_beliefs raised {type(e).__name__}"
+            why = f"expand_beliefs raised {type(e).__name__}"
+        if spec_seq is not None and exact_seq != spec_seq:
+            # the code does not follow the farthest-successor rule where the rule is unambiguous: judge the
+            # returned policy against the belief set the rule prescribes (DRIFT is reported by the judge)
+            rec["deviates"] = {"expected": spec_seq[j_used], "real": None if exact_seq is None else exact_seq[j_used], "why": why}
+            bs = spec_seq[j_used]
+            try:
+                r = self.call("point_based_value_iteration", point_based_value_iteration, self.p,
+                              np.array([self.vec_code(w) for w in bs]), value_convergence_epsilon=float(eps), horizon=hor)
+            except Exception as e:                           # noqa: BLE001
+                rec["recon"] = f"point_based_value_iteration raised {type(e).__name__} on the prescribed belief set"
+                return
+            pr = self.project_pbvi(r, bs, eps, H)
+            rec.update(known=True, bs=bs, k=pr["k"], k_alt=pr["k_alt"], its=pr["its"], ran_out=pr["ran_out"],
+                       acts=pr["acts"], job=self.add_job(bs, eps, H), no_machine_compare=True)
             return
-        used, final = seq[j_used], seq[j_used + 1]
-        if len(used) != rec["n_alpha"] or final.shape != np.asarray(res.belief_set).shape \
-                or not np.array_equal(final, np.asarray(res.belief_set)):
-            rec["recon"] = "the re-recorded expansion sequence does not reproduce the returned belief set"
-            return
-        exact_seq = self.exactify(seq)
         if exact_seq is None:
-            rec["recon"] = "a belief of the set is not an exact successor of a member"
+            rec["recon"] = why
             return
         try:
             r = self.call("point_based_value_iteration", point_based_value_iteration, self.p, used,
-                          value_convergence_epsilon=float(eps), horizon=(None if H < 0 else H))
+                          value_convergence_epsilon=float(eps), horizon=hor)
         except Exception as e:                               # noqa: BLE001
             rec["recon"] = f"point_based_value_iteration raised {type(e).__name__}"
             return
@@ -590,6 +612,8 @@ class Real:
             rec["recon"] = "the re-run on the reconstructed belief set does not reproduce the returned alpha vectors"
             return
         rec.update(known=True, bs=exact_seq[j_used], k=pr["k"], k_alt=pr["k_alt"], its=pr["its"], ran_out=pr["ran_out"], acts=pr["acts"])
+        if spec_seq is not None:
+            self.ctx.count("expansion_sequences_equal_to_the_exact_rule")
         if max(sum(w) for w in exact_seq[j_used]) <= 4096:
             rec["job"] = self.add_job(exact_seq[j_used], eps, H)
         else:
@@ -603,6 +627,42 @@ class Real:
             e = {"from": frm, "to": to, "exact": ex}
             if e not in self.expands and len(to) <= 12:
                 self.expands.append(e)
+
+    def spec_expansions(self, n):
+        """[B_0, ..., B_n] by the exact farthest-successor rule (rows in the order np.unique gives them), or None."""
+        def p2(x):
+            return x > 0 and x & (x - 1) == 0
+        if not hasattr(self, "_spec_seq"):
+            self._spec_seq = [[reduce_w(list(self.mp["p0"]))]]
+            # all probabilities dyadic: products, sums and quotients by powers of two are exact in floating point
+            self._spec_ok = p2(self.mp["PD"]) and p2(self.mp["OD"])
+        seq = self._spec_seq
+
+        def key(w):
+            t = sum(w)
+            return tuple(F(w[self.spos[i]], t) for i in range(len(self.sl)))
+        while self._spec_ok and len(seq) <= n:
+            B = seq[-1]
+            succ = {tuple(w): sorted(exact_succs(self.mp, w)) for w in B}
+            if len(B) > 24 or not all(p2(sum(w)) for w in B) or not all(p2(sum(x)) for v in succ.values() for x in v):
+                self._spec_ok = False
+                break
+            nB = [normal(w) for w in B]
+            new = []
+            for w in B:
+                su = succ[tuple(w)]
+                if not su:
+                    continue
+                dm = [min(sum((a - b) ** 2 for a, b in zip(normal(list(x)), v)) for v in nB) for x in su]
+                mxd = max(dm)
+                if mxd > 0:
+                    new += [list(x) for x, d in zip(su, dm) if d == mxd]
+            if not new:
+                seq.append(list(B))
+                continue
+            allb = {tuple(w) for w in B} | {tuple(w) for w in new}
+            seq.append([list(w) for w in sorted(allb, key=key)])
+        return seq[:n + 1] if len(seq) > n else None
 
     def exactify(self, seq):
         """Float belief sets -> exact integer weights (pruned coordinates), row order kept."""
@@ -781,14 +841,16 @@ class Judge:
 
     def compare_machine(self, rec, jr, robust):
         """Reference machine vs the real loop: DRIFT when it does not explain the run."""
-        if jr is None or jr["phase"] in ("skipped", "undefined") or not robust or "alpha" not in rec:
+        if jr is None or jr["phase"] in ("skipped", "undefined") or not robust or "alpha" not in rec \
+                or rec.get("no_machine_compare"):
             return None
         sc = jr["scale"]
         exp = [[F(x, sc) for x in row] for row in jr["alpha"]]
         got = rec["alpha"]
         same = jr["k"] in (rec.get("k"), rec.get("k_alt")) and len(exp) == len(got) and all(
             abs(got[p][s] - float(exp[p][s])) <= tol(exp[p][s]) for p in range(len(exp)) for s in range(len(exp[p])))
-        if same and jr["phase"] in ("stopped", "horizon") and [a + 1 for a in rec.get("acts", [])] != list(jr["acts"]):
+        if same and jr["phase"] in ("stopped", "horizon") and self.dyadic(rec["bs"], rec["eps"]) \
+                and [a + 1 for a in rec.get("acts", [])] != list(jr["acts"]):
             same = False        # the action attached to each alpha vector (alpha_actions) differs
         if same:
             self.ctx.count("runs_explained_by_the_backup_machine")
@@ -824,11 +886,11 @@ class Judge:
         su = self.slack_up(k)
         ok = True
         extra = {"belief": self.case["beliefs"][i], "kind": rec["kind"], "idx": rec.get("idx"), "k": k}
-        if v > float(hi + su) + tol(hi + su):
+        if not v <= float(hi + su) + tol(hi + su):
             self.fail(site, "value-exceeds-optimal-value-plus-slack",
                       f"value {v!r} at belief {self.case['beliefs'][i]} > Hi_d {hi} + slack {su} (k={k} backups; Lo_d={lo})", extra)
             ok = False
-        if qv is not None and v - qv > float(su) + tol(su) + tol(qv):
+        if qv is not None and not v - qv <= float(su) + tol(su) + tol(qv):
             self.fail(site, "exceeds-QMDP-by-more-than-slack",
                       f"PBVI value {v!r} - QMDP value {qv!r} > slack {su} at belief {self.case['beliefs'][i]}", extra)
             ok = False
@@ -836,7 +898,7 @@ class Judge:
         # backup is exact (member of a successor-closed belief set; spec invariant ClosedExact)
         if self.full and jr is not None and jr.get("closed") and jr["inset"][i]:
             sl = self.slack_lo(k)
-            if v < float(hi - sl) - tol(hi - sl):
+            if not v >= float(hi - sl) - tol(hi - sl):
                 self.fail(site, "fully-observable-value-below-optimum-minus-slack",
                           f"value {v!r} at belief {self.case['beliefs'][i]} < V* {hi} - slack {sl} (k={k}, closed belief set)", extra)
                 ok = False
@@ -847,6 +909,9 @@ class Judge:
         if "error" in rec:
             self.crash(rec)
             return
+        if rec.get("deviates"):
+            self.ctx.drift("Expand", {"case": self.idx, "what": "the belief set of the planner is not the one the "
+                                      "farthest-successor rule prescribes", **rec["deviates"]})
         if rec.get("known"):
             k, jr, robust = self.job_k(rec)
             same = self.compare_machine(rec, jr, robust)
@@ -870,7 +935,7 @@ class Judge:
             allok &= self.value_clauses("PointBasedValueIteration.plan_on", o["value"], i, ob, k, jr, rec, qv)
             # the value must be the value of the returned alpha vectors (AlphaVectorPolicy.value)
             va = float(np.max(np.array(rec["alpha"]) @ np.array([float(x) for x in normal(w)])))
-            if abs(va - o["value"]) > tol(va):
+            if not abs(va - o["value"]) <= tol(va):
                 self.fail("AlphaVectorPolicy.value", "value-is-not-the-maximum-over-alpha-vectors",
                           f"value {o['value']!r} vs max alpha.b {va!r} at belief {w} ({o['brep']})", {"belief": w, "idx": rec["idx"]})
                 allok = False
@@ -891,13 +956,13 @@ class Judge:
             qhi = frac(ob["qhi"][a])
             v = o["av"][ai]
             extra = {"belief": w, "idx": rec["idx"], "action": a, "k": k}
-            if v > float(qhi + su) + tol(qhi + su):
+            if not v <= float(qhi + su) + tol(qhi + su):
                 self.fail("AlphaVectorPolicy.action_value", "look-ahead-exceeds-optimal-action-value-plus-slack",
                           f"action_value {v!r} (action {a}) at belief {w} > HiQ_d {qhi} + slack {su} (k={k})", extra)
                 ok = False
             if self.full and jr is not None and jr.get("closed") and jr["cov"][i]:
                 sl = self.slack_lo(k + 1)
-                if v < float(qhi - sl) - tol(qhi - sl):
+                if not v >= float(qhi - sl) - tol(qhi - sl):
                     self.fail("AlphaVectorPolicy.action_value", "fully-observable-look-ahead-below-optimum-minus-slack",
                               f"action_value {v!r} (action {a}) at belief {w} < Q* {qhi} - slack {sl} (k={k})", extra)
                     ok = False
@@ -923,18 +988,18 @@ class Judge:
                 continue
             for ai, a in enumerate(self.real.apos):
                 ex = frac(ob["qmdp"][a])
-                if abs(o["av"][ai] - float(ex)) > tol(ex) + extra_tol:
+                if not abs(o["av"][ai] - float(ex)) <= tol(ex) + extra_tol:
                     self.fail("QMDPPolicy.action_value", "not-the-belief-weighted-optimal-MDP-action-value",
                               f"action_value {o['av'][ai]!r} (action {a}) at belief {w}, exact sum_s b(s) Q*(s,a) = {ex} (solver {rec['solver']})",
                               {"belief": w, "action": a})
                     allok = False
             lo = frac(ob["lo"])
-            if o["value"] < float(lo) - tol(lo) - extra_tol:
+            if not o["value"] >= float(lo) - tol(lo) - extra_tol:
                 self.fail("QMDPPolicy.value", "value-below-optimal-value",
                           f"QMDP value {o['value']!r} at belief {w} < Lo_d {lo} <= V*", {"belief": w})
                 allok = False
             h1 = frac(ob["h1"])
-            if abs(o["value"] - float(h1)) > tol(h1) + extra_tol:
+            if not abs(o["value"] - float(h1)) <= tol(h1) + extra_tol:
                 self.fail("QMDPPolicy.value", "value-is-not-the-maximal-action-value",
                           f"QMDP value {o['value']!r} at belief {w}, exact max_a sum_s b(s) Q*(s,a) = {h1}", {"belief": w})
                 allok = False
